@@ -233,7 +233,7 @@ fn run(ctx: &mut Ctx) {
         if base.result != "halt" || m0.boundaries > 400 { ctx.count("base-run-unsuitable"); return; }
         let vs: Vec<u8> = su.isrs.keys().copied().collect();
         let nb = m0.boundaries;
-        let pairs = ctx.tier.pick(40, 400);
+        let pairs = ctx.tier.pick_exact(40, 400);
         for _ in 0..pairs {
             let b1 = rng.below(nb);
             let (v1, v2) = (*rng.pick(&vs), *rng.pick(&vs));
